@@ -533,6 +533,38 @@ def evict_obligations(pid, tier, seed):
     return {'obligations': obs, 'bounds': bounds}
 
 
+# ---------------------------------------------------------------------------
+# C08: concurrent transactions
+
+def txn_obligations(pid, tier, seed):
+    obs = []
+    t = 400 if tier == 'quick' else 2400
+    sh, bounds = tree_shapes(tier, seed, quick_extra=(4, 2))
+    if tier == 'quick':
+        # leaves with spare room (a concurrent insert that does not split) need leaf size 3
+        c32, st32 = cat('OO', 'c', 'BTree', 5, 3, 2)
+        bounds['shapes_BTree_3_2_N5'] = st32
+        pick = [s_ for s_ in sorted(c32, key=lambda s_: (shapes.n_ranks(s_), repr(s_)))
+                if s_[0] == 'T' and shapes.n_ranks(s_) <= 5]
+        sh += [('BTree', 'l3', s_, c32[s_], 3, 2) for s_ in pick[:10]]
+    for impl in ('c', 'py'):
+        for kind, tag, tpl, hist, L, I in sh:
+            m = shapes.n_ranks(tpl)
+            if tpl[0] == 'E':
+                continue
+            if tier == 'quick' and m > 5:
+                continue
+            if tier != 'quick' and m > 5 and tag != 'core':
+                continue
+            P = dict(family='OO', impl=impl, kind=kind, tpl=tpl, L=L, I=I, prov='loaded')
+            obs.append(dict(id='%s/%s/%s/%s%s/%s' % (pid, impl, kind, tag, '' if (L, I) == (2, 2) else '%d%d' % (L, I), sid(tpl)),
+                            mod='h_txn', fn='txn_pair', nk=m, args=[('x', 'int'), ('y', 'int'), ('op1', 'int'), ('op2', 'int')],
+                            pre=['0 <= op1 < 3', '0 <= op2 < 3'], params=P, timeout=t))
+    bounds.update(per_condition_timeout_s=t, transactions='one operation each from {insert/replace, delete, clear}, keys and operation '
+                  'kinds solver-chosen; first committer = transaction 1 (roles are symmetric: both are symbolic)')
+    return {'obligations': obs, 'bounds': bounds}
+
+
 COMMON_ASSUME = [
     'key objects are observed by the containers only through rich comparison, identity and None-ness '
     '(true for the object-key templates; native-key families are covered by their own obligations where stated)',
@@ -706,5 +738,22 @@ PROPS = {
                    'BTree_length_or_nonzero, BTree__p_deactivate, bucket__p_deactivate, _BTree_clear, _bucket_clear', 'BTrees._base (no pinning; '
                    'relies on persistent reloading)'],
         assumptions=COMMON_ASSUME + ['harness/minidb.py + persistent.PickleCache stand for the object cache of a ZODB connection'],
+    ),
+    'C08': dict(
+        families=['OO'],
+        gen=lambda tier, seed: txn_obligations('C08', tier, seed),
+        explanation='A catalogue shape with symbolic keys is stored in the mini object database; two connections load it and each '
+                    'performs one operation (insert or value change, delete, clear; kind and key solver-chosen) on its own copy; '
+                    'the first commits, then the second under optimistic concurrency control: serial check, readCurrent '
+                    'verification and _p_resolveConflict called as ZODB does. Asserted on every path: the second commit raises a '
+                    'conflict error (stored tree = first transaction\'s, sound), or a third connection loads a sound tree whose '
+                    'contents equal the serial result or the original with both disjoint net change sets applied. Every write '
+                    'logs readCurrent for each stored interior node on its descent path (path computed from the stored states with '
+                    'the model order); lookups, range queries, len, bool and iteration log none.',
+        functions=['_OOBTree.so: _BTree_set (PER_READCURRENT), bucket__p_resolveConflict, bucket_merge, BTree__p_resolveConflict, '
+                   'get_bucket_state, BTree_getstate/_setstate, _BTree_clear', 'BTrees._base: _Tree._set/_del (readCurrent), '
+                   'Bucket/Set/_Tree._p_resolveConflict, clear'],
+        assumptions=COMMON_ASSUME + ['harness/minidb.py models optimistic commit with conflict resolution the way ZODB performs it '
+                                     '(one reference object per oid per resolution); two connections, one operation each'],
     ),
 }
